@@ -316,6 +316,14 @@ func c12Run(c *Ctx) {
 			mp.Graph.Initializer = mp.Graph.Initializer[:1]
 			mp.Graph.Output = mp.Graph.Output[:1]
 		}
+		if c.Idx%10 == 4 {
+			// the initializer under test between two well-formed ones: an undecodable weight is
+			// reported wherever it stands in the list
+			g1 := mon.TensorProto("g1", c.R.Tensor(ref.F32, []int{2}, gen.FillSmall, 3), c.R.Bool())
+			g2 := mon.TensorProto("g2", c.R.Tensor(ref.I64, []int{3}, gen.FillSmall, 3), c.R.Bool())
+			mp.Graph.Initializer = []*onnx.TensorProto{g1, tp, g2}
+			c.Count("models-with-the-initializer-between-two-others", 1)
+		}
 		before := proto.Clone(mp)
 		load := runProtoModel
 		path := "initializer+Run"
@@ -342,6 +350,42 @@ func c12Run(c *Ctx) {
 	if c.Idx%4 == 1 {
 		g := &mon.Graph{Nodes: []mon.GNode{{Op: "Constant", Outputs: []string{"y"}, Attrs: []*mon.Attr{mon.AttrT("value", tp)}}}, Outputs: []mon.GInput{{Name: "y", NoType: true}}}
 		judge("Constant+Run", runProtoModel(g.Proto(), []string{"y"}))
+	}
+	// (d) the owner of a ModelProto object edits a tensor message in place and makes a new
+	// model from the same object: the new model holds what the message says NOW (nothing is
+	// remembered per message object)
+	if c.Idx%8 == 3 || c.Idx%8 == 6 {
+		var mp *onnx.ModelProto
+		out, path := "w", "NewModel(proto)+Run after the initializer message was edited in place"
+		if c.Idx%8 == 3 {
+			g := &mon.Graph{Nodes: []mon.GNode{{Op: "Constant", Outputs: []string{"y"}, Attrs: []*mon.Attr{mon.AttrT("value", tp)}}}, Outputs: []mon.GInput{{Name: "y", NoType: true}}}
+			mp, out, path = g.Proto(), "y", "NewModel(proto)+Run after the Constant's tensor message was edited in place"
+		} else {
+			g := &mon.Graph{Outputs: []mon.GInput{{Name: "w", NoType: true}}}
+			mp = g.Proto()
+			mp.Graph.Initializer = []*onnx.TensorProto{tp}
+		}
+		_ = mon.RunModelProtoDirect(mp, nil, []string{out})
+		pc2 := genProto(c.R)
+		name := tp.Name
+		proto.Reset(tp)
+		proto.Merge(tp, pc2.tp)
+		tp.Name = name
+		want2, err2 := ref.Decode(pc2.neutral)
+		exp2 := Expect{Kind: MustError, Mode: CmpBits, Why: "edited message is malformed"}
+		if err2 == nil {
+			exp2 = Expect{Kind: MustEqual, Want: Exact(want2), Mode: CmpBits, Why: "edited message is well-formed"}
+		}
+		o2 := mon.RunModelProtoDirect(mp, nil, []string{out})
+		c.Eval(2)
+		c.Count("models-made-again-after-an-in-place-edit-of-a-tensor-message", 1)
+		if v := Judge(exp2, o2); !v.OK {
+			sig := "decode:" + v.Kind
+			if tp.DataType == 0 && o2.Kind == mon.Value {
+				sig = "decode:UNDEFINED-data_type-loaded-from-the-populated-typed-field"
+			}
+			c.Violation(sig, "[%s] %s | edited to: type=%d dims=%v raw=%d mutation=%q | before: %s | expectation %s %s", path, trunc(v.Detail, 400), tp.DataType, tp.Dims, len(tp.RawData), pc2.mutation, c.caseStr, exp2.Kind, exp2.Why)
+		}
 	}
 	if c.Idx%12000 == 31 {
 		c.Sample(map[string]any{"case": c.caseStr, "expectation": exp.Kind.String(), "why": exp.Why})
